@@ -3,11 +3,13 @@
   Property theorems only (helpers live in WW/Proofs/{Weight,Incentive}.lean). The models are
   `calcWeight` (replica of `incentive/src/weight.rs::calculate_weight`, engine `weight`) and the
   incentive state machine `WW.Inc.step` (engine `incentive`), both tied to the Rust by the
-  correspondence run. The model follows the repaired code (fix commits F6, F11, F12 and the share
-  query repair).
+  correspondence run. The model follows the repaired code (fix commits F6, F11, F12, the share
+  query repair, and the repair of the claim / rewards loops, which now read the weight history also
+  for the epochs they skip before a flow's start).
 -/
 import WW.Proofs.Snapshot
 import WW.Proofs.ClaimQuery
+import WW.Proofs.ClaimWeights
 namespace WW.C13
 open WW WW.Gen WW.Inc
 
@@ -128,17 +130,87 @@ theorem claim_eq_rewards_query_total {s : St} {u epoch : Nat} (fl fl' : List Flo
 /-- the cap in question is the documented 100 epochs -/
 theorem claim_cap : INCENTIVE_EPOCH_CLAIM_CAP = 100 := by decide
 
-/-- Full statement of the shares clause: in every epoch `E` the weights the claim loop uses for the
-    addresses add up to at most the epoch's snapshot. NOT proved as stated (missing part: the ghost
-    invariant tying every `ADDRESS_WEIGHT_HISTORY` entry that `claim` / the share query can read for
-    epoch `E` to the address's weight at the moment the snapshot of `E` was taken, over monotone epochs);
-    checked on the real contracts by the monitors `C13:shares_le_one` (share query and single-epoch
-    claim payouts against the epoch's emission). What is proved, for every placement of the snapshot
-    call, is `shares_le_one_partial` below. -/
+/-- The shares clause: in epoch `E` the weights `effW` of the (distinct) addresses `us` add up to at most
+    the epoch's global-weight snapshot. Proved for every epoch-monotone history, every epoch and every set
+    of addresses by `shares_le_one` below with `effW := fun u => Inc.effW s.whist u E`, the weight the
+    claim loop, the rewards query and the share query read for `E` (the `ADDRESS_WEIGHT_HISTORY` entry
+    with the largest epoch `≤ E`, `0` if there is none; see `weight_used_is_effW`). Also checked on the
+    real contracts by the monitors `C13:shares_le_one`. -/
 def SharesLeOne (s : St) (E : Nat) (us : List Addr) (effW : Addr → Nat) : Prop :=
   ∀ g, alook s.snap E = some g → (us.map effW).sum ≤ g
 
-/-- **shares_le_one** (`_partial`, the F11 mechanism, for every placement of the snapshot call): in any
+/-- **shares_le_one**, over ALL histories whose epochs never go back, for EVERY placement of the snapshot
+    call (explicit, lazy, never): whatever sequence of operations (any senders, receivers, amounts,
+    durations, times, funds; opens, expansions, closes, claims in any order, snapshots anywhere, flow
+    operations, helper deposits, failed operations) is applied to a freshly instantiated contract, for
+    every epoch `E` that has a global-weight snapshot and every list `us` of distinct addresses, the
+    weights in effect for `E` add up to at most `snapshot(E)`. -/
+theorem shares_le_one (c : Cfg) (e0 : Nat) (bal : Bal) (ops : List (Env × Op)) (he : EpochsFrom e0 ops)
+    (E : Nat) (us : List Addr) (hus : us.Nodup) :
+    SharesLeOne (reach c (init e0 bal) ops) E us (fun u => Inc.effW (reach c (init e0 bal) ops).whist u E) := by
+  obtain ⟨ep', h⟩ := reach_SInv (c := c) ops (init e0 bal) e0 (init_WInv e0 bal) (init_SInv e0 bal) he
+  intro g hg
+  exact h.W E g hg us hus
+
+/-- … hence the shares (`Decimal256::from_ratio(weight, snapshot)`, floor at 18 decimals — what
+    `rewardOf` and the share query compute) of any distinct addresses add up to at most 100 %, and the
+    payouts `emission × share` (floor) of one flow for one epoch add up to at most that epoch's emission,
+    whoever claims, whenever, in whatever order. -/
+theorem shares_sum_le_one (c : Cfg) (e0 : Nat) (bal : Bal) (ops : List (Env × Op)) (he : EpochsFrom e0 ops)
+    (E g : Nat) (us : List Addr) (hus : us.Nodup)
+    (hg : alook (reach c (init e0 bal) ops).snap E = some g) (hpos : 0 < g) :
+    (us.map (fun u => Inc.effW (reach c (init e0 bal) ops).whist u E * E18 / g)).sum ≤ E18
+    ∧ ∀ emission,
+        (us.map (fun u => emission * (Inc.effW (reach c (init e0 bal) ops).whist u E * E18 / g) / E18)).sum
+          ≤ emission :=
+  shares_of_weights us _ g hpos (shares_le_one c e0 bal ops he E us hus g hg)
+
+/-- the invariant behind it as a one-transaction statement: `SInv s cur` (no history entry beyond
+    `cur + 1`, no future snapshot, no next-epoch entry before the current snapshot exists, the latest entry
+    of an address is its live weight, global = Σ address weights, and the shares clause for every
+    snapshotted epoch) survives any successful transaction at any epoch `≥ cur`. -/
+theorem shares_le_one_step {c : Cfg} {s s' : St} {e : Env} {op : Op} {cur : Nat} (hW : WInv s)
+    (hI : SInv s cur) (hle : cur ≤ e.epoch) (h : step c s e op = .ok s') : SInv s' e.epoch :=
+  step_SInv hW (SI.adv hI hle) h
+
+/-- **the weight the loops use is `effW`** (one iteration): one iteration of the epoch loop of `claim.rs` /
+    `get_rewards.rs` (both go through `weightAt`) at epoch `ep ≥ 1`, carrying a correct
+    `(last_epoch_user_weight_update, last_user_weight_seen)` pair (`Carry`), uses exactly
+    `effW whist u ep` as the address weight (`none` = the epoch is skipped = weight 0) and hands a correct
+    pair to the next iteration. -/
+theorem weight_used_is_effW {s : St} {u ep lu ls : Nat} (hep : 1 ≤ ep) (hC : Carry s.whist u ep lu ls) :
+    (weightAt s u ep lu ls).2.2.getD 0 = Inc.effW s.whist u ep
+    ∧ Carry s.whist u (ep + 1) (weightAt s u ep lu ls).1 (weightAt s u ep lu ls).2.1 :=
+  weightAt_effW hep hC
+
+/-- **every claim reads `effW`**, over ALL epoch-monotone histories: in any state reached from a fresh
+    contract, for any address `u` and any flow `f`, the loop `claim` runs for `f` — started as `claim.rs`
+    starts it (`claimStart`: first claimable epoch = last claimed epoch + 1, or the earlier of the flow's
+    start and the address's earliest history entry; carried pair = that earliest entry) — uses
+    `effW whist u ep` as `u`'s weight in EVERY iteration it reaches (`LoopReadsEffW`, `n` iterations for
+    any `n`), including after the epochs it skips before the flow's start. Together with `shares_le_one`
+    (`Σ_u effW u E ≤ snapshot(E)`) and `shares_sum_le_one` this is the shares clause for what is actually
+    paid. -/
+theorem claim_reads_effW (c : Cfg) (e0 : Nat) (bal : Bal) (ops : List (Env × Op)) (he : EpochsFrom e0 ops)
+    (u : Addr) (f : Flow) (n : Nat) :
+    LoopReadsEffW (reach c (init e0 bal) ops) u f.expanded.1 f.expanded.2 n
+      (claimStart (reach c (init e0 bal) ops) u f).1
+      { flow := f, lastUpd := (claimStart (reach c (init e0 bal) ops) u f).2.1,
+        lastSeen := (claimStart (reach c (init e0 bal) ops) u f).2.2, count := 0, msgs := [] } := by
+  obtain ⟨ep', hL⟩ := reach_LCI (c := c) ops (init e0 bal) e0 (init_LCI e0 bal) he
+  exact loop_reads_effW (hL.zero u) n _ _ (claimStart_carry hL u f)
+
+/-- … and so does the separately modelled rewards query (`get_rewards.rs`) -/
+theorem rewards_query_reads_effW (c : Cfg) (e0 : Nat) (bal : Bal) (ops : List (Env × Op))
+    (he : EpochsFrom e0 ops) (u : Addr) (f : Flow) (n : Nat) :
+    QueryReadsEffW (reach c (init e0 bal) ops) u f f.expanded.1 f.expanded.2 n
+      (claimStart (reach c (init e0 bal) ops) u f).1
+      { emitted := f.emitted, lastUpd := (claimStart (reach c (init e0 bal) ops) u f).2.1,
+        lastSeen := (claimStart (reach c (init e0 bal) ops) u f).2.2, total := 0 } := by
+  obtain ⟨ep', hL⟩ := reach_LCI (c := c) ops (init e0 bal) e0 (init_LCI e0 bal) he
+  exact query_reads_effW (hL.zero u) n _ _ (claimStart_carry hL u f)
+
+/-- the F11 mechanism on its own (kept from the first version; subsumed by `shares_le_one`): in any
     state reachable from a fresh contract and for any further successful operation in epoch `E`
     (a) a snapshot that already exists — for any epoch — is never changed;
     (b) if the snapshot of an epoch appears in this operation, it is the operation's own epoch and its
@@ -174,6 +246,25 @@ example :
     (alook s.snap 2, getRewards s 1 2, getRewards s 2 2) = (some 2000, .ok [(2, 50000)], .ok [(2, 50000)])
     ∧ (balOf s2 1 2, balOf s2 2 2, s2.global, sumVals s2.addrW) = (50000, 50000, 1000, 1000)
     ∧ (step c s2 { epoch := 2, time := 1000, sender := 2, offers := [] } .claim).isOk = false := by decide
+
+/-- regression (the defect repaired by the last incentive fix): alice opens in epoch 1 and closes in epoch 3
+    without ever claiming, a flow starts in epoch 5. Before the repair the loops carried alice's earliest
+    history entry (1000) past the later one (0) because the epochs before the flow's start were skipped
+    unread, and alice and bob were each paid the whole emission of epoch 5. Now: `effW` of alice for epoch 5
+    is 0, she is quoted and paid nothing, bob gets the 100 000. -/
+example :
+    let c : Cfg := { lpNative := false, feeAsset := 1, feeAmt := 1, maxFlows := 3, buffer := 10, minDur := 86400, maxDur := 31556926 }
+    let s0 := init 1 [((1, 0), 5000), ((2, 0), 5000), ((4, 1), 10), ((4, 2), 2000000)]
+    let s := reach c s0 [({ epoch := 1, time := 1000, sender := 1, offers := [(0, 1000)] }, .openPos 1000 86400 none),
+                         ({ epoch := 1, time := 1000, sender := 2, offers := [(0, 1000)] }, .openPos 1000 86400 none),
+                         ({ epoch := 3, time := 1000, sender := 1, offers := [] }, .closePos 86400),
+                         ({ epoch := 3, time := 1000, sender := 4, offers := [(1, 1), (2, 1000000)] }, .openFlow 2 1000000 (some 5) (some 15)),
+                         ({ epoch := 5, time := 1000, sender := 3, offers := [] }, .snapshot)]
+    let s2 := reach c s [({ epoch := 5, time := 1000, sender := 1, offers := [] }, .claim),
+                         ({ epoch := 5, time := 1000, sender := 2, offers := [] }, .claim)]
+    (Inc.effW s.whist 1 5, Inc.effW s.whist 2 5, alook s.snap 5) = (0, 1000, some 1000)
+    ∧ (getRewards s 1 5, getRewards s 2 5) = (.ok [], .ok [(2, 100000)])
+    ∧ (balOf s2 1 2, balOf s2 2 2, s2.flows.map (·.claimed)) = (0, 100000, [100000]) := by decide
 
 /-- non-vacuity / exact values: the five documented points of the weight curve. -/
 example : calcWeight 86400 10000 = .ok 10000 ∧ calcWeight 31556926 10000 = .ok 159999
